@@ -21,6 +21,20 @@ pub struct Scenario {
     pub acc_tol: f32,
     /// inputs for a `predict_batch` call after that
     pub pred: Vec<Vec<f32>>,
+    /// initial parameters written through the hook right after construction (steering)
+    #[serde(default)]
+    pub init_params: Option<Vec<Vec<f32>>>,
+}
+
+impl Scenario {
+    /// Build the network and apply the initial parameters, if any.
+    pub fn build(&self) -> network::Network {
+        let mut net = self.net.build();
+        if let Some(p) = &self.init_params {
+            set_parameters(&mut net, p);
+        }
+        net
+    }
 }
 
 pub fn tensors(net: &NetCfg, xs: &[Vec<f32>]) -> Vec<tensor::Tensor> {
@@ -127,7 +141,7 @@ pub fn params_bits(net: &network::Network) -> Vec<Vec<u32>> {
 /// build -> learn -> validate -> predict_batch, one `ctx.op()` before each API call.
 pub fn execute_full(sc: &Scenario, ctx: &mut Ctx) -> Obs {
     ctx.op();
-    let mut net = sc.net.build();
+    let mut net = sc.build();
     let mut obs = Obs::default();
     obs.initial = params_bits(&net);
 
@@ -385,7 +399,7 @@ pub fn shrink_scenario(sc: &Scenario) -> Vec<Scenario> {
     }
     for n in shrink_net(&sc.net) {
         // only nets with an unchanged input size keep the data valid
-        if n.input == sc.net.input {
+        if n.input == sc.net.input && sc.init_params.is_none() {
             let mut s = sc.clone();
             s.net = n;
             out.push(s);
